@@ -247,4 +247,4 @@ func intRange(k types.BasicKind) (string, string) {
 type unsupportedErr struct{ msg string }
 
 func (e unsupportedErr) Error() string { return "outside verified subset: " + e.msg }
-func unsupported(msg string) error    { return unsupportedErr{msg} }
+func unsupported(msg string) error     { return unsupportedErr{msg} }
